@@ -339,11 +339,12 @@ func (v *FV) locWrite(env *ExprEnv, st *State, text string, _ string) (res []tou
 			return nil, err
 		}
 		for k := range ts {
-			a := ts[k].arr
-			now := v.heapGet(st.snap, a)
-			was := v.heapGet(beforeSnap, a)
-			if now != was {
-				st.snap.over[a] = v.define(a, v.arrSort(a), fmt.Sprintf("(ite %s %s %s)", condT, now, was))
+			for _, a := range []string{ts[k].arr, ts[k].arr + "$n"} {
+				now := v.heapGet(st.snap, a)
+				was := v.heapGet(beforeSnap, a)
+				if now != was {
+					st.snap.over[a] = v.define(a, v.arrSort(a), fmt.Sprintf("(ite %s %s %s)", condT, now, was))
+				}
 			}
 			ts[k].cond = condT
 		}
@@ -383,8 +384,10 @@ func (v *FV) locWrite(env *ExprEnv, st *State, text string, _ string) (res []tou
 			return nil, err
 		}
 		for i := range ts {
-			fresh := v.declare("hvall_"+ts[i].arr, v.arrSort(ts[i].arr))
-			st.snap.over[ts[i].arr] = fresh
+			for _, a := range []string{ts[i].arr, ts[i].arr + "$n"} {
+				fresh := v.declare("hvall_"+a, v.arrSort(a))
+				st.snap.over[a] = fresh
+			}
 			ts[i].all = true
 		}
 		return ts, nil
@@ -405,9 +408,9 @@ func (v *FV) locWrite(env *ExprEnv, st *State, text string, _ string) (res []tou
 		case x.Sort == "Slice":
 			sl := x.Ty.Underlying().(*types.Slice)
 			arr := v.elemArray(sl.Elem())
-			ref := fmt.Sprintf("(sl_arr %s)", x.T)
+			ref := v.arrOf(x.T)
 			fresh := v.declare("hv_"+arr, fmt.Sprintf("(Array %s %s)", v.idx(), v.sortOf(sl.Elem())))
-			v.heapSet(st.snap, arr, fmt.Sprintf("(store %s %s %s)", v.heapGet(st.snap, arr), ref, fresh))
+			v.wr(st.snap, arr, ref, fresh)
 			return []touched{{arr: arr, ref: ref}}, nil
 		case x.Sort == "Int":
 			if m, ok := x.Ty.Underlying().(*types.Map); ok {
@@ -416,12 +419,12 @@ func (v *FV) locWrite(env *ExprEnv, st *State, text string, _ string) (res []tou
 					s := v.arrSort(a)
 					inner := strings.TrimSuffix(strings.TrimPrefix(s, "(Array Int "), ")")
 					fresh := v.declare("hv_"+a, inner)
-					v.heapSet(st.snap, a, fmt.Sprintf("(store %s %s %s)", v.heapGet(st.snap, a), x.T, fresh))
+					v.wr(st.snap, a, x.T, fresh)
 				}
 				ml := v.mapLenArray()
 				fl := v.declare("hv_mlen", v.idx())
 				v.assume(st.reach, fmt.Sprintf("(%s %s %s)", v.cmpOp(">=", true), fl, v.idxLit(0)))
-				v.heapSet(st.snap, ml, fmt.Sprintf("(store %s %s %s)", v.heapGet(st.snap, ml), x.T, fl))
+				v.wr(st.snap, ml, x.T, fl)
 				return []touched{{arr: dom, ref: x.T}, {arr: val, ref: x.T}, {arr: ml, ref: x.T}}, nil
 			}
 		}
@@ -452,7 +455,7 @@ func (v *FV) havocObject(st *State, ty types.Type, ref Term) []touched {
 			arr, _ := v.fieldArray(ty, i)
 			fresh := v.declare("hv_"+arr, v.sortOf(ft))
 			v.assume(st.reach, v.typeFacts(fresh, ft))
-			v.heapSet(st.snap, arr, fmt.Sprintf("(store %s %s %s)", v.heapGet(st.snap, arr), ref, fresh))
+			v.wr(st.snap, arr, ref, fresh)
 			res = append(res, touched{arr: arr, ref: ref})
 		}
 		// ghost fields
@@ -464,7 +467,7 @@ func (v *FV) havocObject(st *State, ty types.Type, ref Term) []touched {
 	arr := v.cellArray(ty)
 	fresh := v.declare("hv_"+arr, v.sortOf(ty))
 	v.assume(st.reach, v.typeFacts(fresh, ty))
-	v.heapSet(st.snap, arr, fmt.Sprintf("(store %s %s %s)", v.heapGet(st.snap, arr), ref, fresh))
+	v.wr(st.snap, arr, ref, fresh)
 	return []touched{{arr: arr, ref: ref}}
 }
 
@@ -480,7 +483,7 @@ func (v *FV) havocGhost(st *State, g *GhostField, ref Term) []touched {
 	if _, isMap := gty.(*types.Map); !isMap {
 		v.assume(st.reach, v.typeFacts(fresh, gty))
 	}
-	v.heapSet(st.snap, arr, fmt.Sprintf("(store %s %s %s)", v.heapGet(st.snap, arr), ref, fresh))
+	v.wr(st.snap, arr, ref, fresh)
 	return []touched{{arr: arr, ref: ref}}
 }
 
@@ -511,7 +514,7 @@ func (v *FV) havocField(env *ExprEnv, st *State, base TV, name string) ([]touche
 			} else {
 				v.assume(st.reach, v.typeFacts(fresh, ft))
 			}
-			v.heapSet(st.snap, arr, fmt.Sprintf("(store %s %s %s)", v.heapGet(st.snap, arr), base.T, fresh))
+			v.wr(st.snap, arr, base.T, fresh)
 			return []touched{{arr: arr, ref: base.T}}, nil
 		}
 	}
@@ -728,6 +731,7 @@ func (v *FV) inline(fr *Frame, st *State, callee *ssa.Function, args []TV, bindi
 	}
 	sub.panicking, sub.recovered = st.panicking, st.recovered
 	exits := v.execBody(nf, sub)
+	v.curSt = st
 	v.curFnKey = saveKey
 	v.inlineStack = v.inlineStack[:len(v.inlineStack)-1]
 	// merge normal exits back into st
@@ -862,6 +866,7 @@ func bindResultNames(vars map[string]TV, sig *types.Signature, results []TV) {
 
 func (v *FV) applyContract(fr *Frame, st *State, con *Contract, callee *ssa.Function, cc *ssa.CallCommon, recvTV TV, args []TV, pos string) []TV {
 	v.curFrame = fr
+	v.curSt = st
 	sig := cc.Signature()
 	name := con.Key
 	if con.Extern || con.Trusted {
@@ -979,7 +984,9 @@ func (v *FV) freshResultsFor(st *State, rt *types.Tuple, prefix string, fresh bo
 			if len(distinct) > 0 {
 				newObj = fmt.Sprintf("(and (> %s %s) %s)", n, v.n0, strings.Join(distinct, " "))
 			}
-			v.assume(st.reach, fmt.Sprintf("(and (>= %s 0) (or %s %s))", n, v.refOK(n), newObj))
+			top := v.topOf(st.snap)
+			v.assume(st.reach, fmt.Sprintf("(and (>= %s 0) (or %s (and %s (>= %s %s))))", n, v.refOK(n), newObj, n, top))
+			v.heapSet(st.snap, "TOP", fmt.Sprintf("(store %s 0 (ite (>= %s %s) (+ %s 1) %s))", v.heapGet(st.snap, "TOP"), n, top, n, top))
 			v.fresh = append(v.fresh, n)
 		} else {
 			v.assume(st.reach, v.typeFacts(n, et))
@@ -1026,7 +1033,7 @@ func (v *FV) builtin(fr *Frame, st *State, in ssa.Value, cc *ssa.CallCommon, b *
 			v.setVal(fr, in, fmt.Sprintf("(str_len %s)", x.T))
 		default:
 			if _, ok := cc.Args[0].Type().Underlying().(*types.Map); ok {
-				tv := v.setVal(fr, in, fmt.Sprintf("(ite (= %s 0) %s (select %s %s))", x.T, v.idxLit(0), v.heapGet(st.snap, v.mapLenArray()), x.T))
+				tv := v.setVal(fr, in, fmt.Sprintf("(ite (= %s 0) %s %s)", x.T, v.idxLit(0), v.rd(st.snap, v.mapLenArray(), x.T)))
 				v.assume(st.reach, fmt.Sprintf("(%s %s %s)", v.cmpOp(">=", true), tv.T, v.idxLit(0)))
 			} else if at, ok := cc.Args[0].Type().Underlying().(*types.Array); ok {
 				v.setVal(fr, in, v.idxLit(at.Len()))
@@ -1050,11 +1057,12 @@ func (v *FV) builtin(fr *Frame, st *State, in ssa.Value, cc *ssa.CallCommon, b *
 		ref := v.val(fr, cc.Args[0]).T
 		k := v.val(fr, cc.Args[1]).T
 		dom, _ := v.mapArrays(m)
-		hd := v.heapGet(st.snap, dom)
+		domA := v.define("ddom", fmt.Sprintf("(Array %s Bool)", v.sortOf(m.Key())), v.rd(st.snap, dom, ref))
 		ml := v.mapLenArray()
-		hl := v.heapGet(st.snap, ml)
-		v.heapSet(st.snap, ml, fmt.Sprintf("(ite (= %s 0) %s (store %s %s (ite (select (select %s %s) %s) %s (select %s %s))))", ref, hl, hl, ref, hd, ref, k, v.isub(fmt.Sprintf("(select %s %s)", hl, ref), v.idxLit(1)), hl, ref))
-		v.heapSet(st.snap, dom, fmt.Sprintf("(ite (= %s 0) %s (store %s %s (store (select %s %s) %s false)))", ref, hd, hd, ref, hd, ref, k))
+		lenT := v.rd(st.snap, ml, ref)
+		// delete on a nil map is a no-op; writes at ref 0 are harmless in the model
+		v.wr(st.snap, ml, ref, fmt.Sprintf("(ite (select %s %s) %s %s)", domA, k, v.isub(lenT, v.idxLit(1)), lenT))
+		v.wr(st.snap, dom, ref, fmt.Sprintf("(store %s %s false)", domA, k))
 		fr.vals[in] = TV{T: "0", Ty: in.Type(), Sort: "Int"}
 	case "min", "max":
 		x := v.val(fr, cc.Args[0])
@@ -1093,7 +1101,7 @@ func (v *FV) appendOp(fr *Frame, st *State, in ssa.Value, cc *ssa.CallCommon, po
 	sl := cc.Args[0].Type().Underlying().(*types.Slice)
 	arr := v.elemArray(sl.Elem())
 	es := v.sortOf(sl.Elem())
-	h := v.heapGet(st.snap, arr)
+	pre := st.snap.clone()
 	// new backing array (the model never reuses spare capacity: callers must not rely
 	// on aliasing between the old and the new slice)
 	ref := v.newRef(fr.prefix + in.Name())
@@ -1107,18 +1115,18 @@ func (v *FV) appendOp(fr *Frame, st *State, in ssa.Value, cc *ssa.CallCommon, po
 		elen := fmt.Sprintf("(sl_len %s)", e.T)
 		newLen = v.iadd(slen, elen)
 		v.emit(fmt.Sprintf("(assert (forall ((i %s)) (! (=> (and (%s %s i) (%s i %s)) (= (select %s i) %s)) :pattern ((select %s i)))))",
-			v.idx(), le, z, lt, slen, contents, v.sliceElem(h, es, s.T, "i"), contents))
+			v.idx(), le, z, lt, slen, contents, v.sliceElemAt(pre, arr, es, s.T, "i"), contents))
 		v.emit(fmt.Sprintf("(assert (forall ((i %s)) (=> (and (%s %s i) (%s i %s)) (= (select %s %s) %s))))",
-			v.idx(), le, z, lt, elen, contents, v.iadd(slen, "i"), v.sliceElem(h, es, e.T, "i")))
+			v.idx(), le, z, lt, elen, contents, v.iadd(slen, "i"), v.sliceElemAt(pre, arr, es, e.T, "i")))
 		// single-element appends (the common case) get a direct equation
-		v.emit(fmt.Sprintf("(assert (=> (= %s %s) (= (select %s %s) %s)))", elen, v.idxLit(1), contents, slen, v.sliceElem(h, es, e.T, v.idxLit(0))))
+		v.emit(fmt.Sprintf("(assert (=> (= %s %s) (= (select %s %s) %s)))", elen, v.idxLit(1), contents, slen, v.sliceElemAt(pre, arr, es, e.T, v.idxLit(0))))
 	} else if e.Sort == "Str" {
 		elen := fmt.Sprintf("(str_len %s)", e.T)
 		newLen = v.iadd(slen, elen)
 	} else {
 		fail("append of %s", e.Sort)
 	}
-	v.heapSet(st.snap, arr, fmt.Sprintf("(store %s %s %s)", h, ref, contents))
+	v.wr(st.snap, arr, ref, contents)
 	nl := v.define(fr.prefix+in.Name()+"_len", v.idx(), newLen)
 	capT := v.declare(fr.prefix+in.Name()+"_cap", v.idx())
 	v.assume(st.reach, fmt.Sprintf("(%s %s %s)", le, nl, capT))
@@ -1135,7 +1143,7 @@ func (v *FV) copyOp(fr *Frame, st *State, in ssa.Value, cc *ssa.CallCommon, pos 
 	sl := cc.Args[0].Type().Underlying().(*types.Slice)
 	arr := v.elemArray(sl.Elem())
 	es := v.sortOf(sl.Elem())
-	h := v.heapGet(st.snap, arr)
+	pre := st.snap.clone()
 	lt := v.cmpOp("<", true)
 	le := v.cmpOp("<=", true)
 	dlen := fmt.Sprintf("(sl_len %s)", d.T)
@@ -1148,15 +1156,15 @@ func (v *FV) copyOp(fr *Frame, st *State, in ssa.Value, cc *ssa.CallCommon, pos 
 	n := v.define(fr.prefix+in.Name(), v.idx(), fmt.Sprintf("(ite (%s %s %s) %s %s)", lt, dlen, slen, dlen, slen))
 	contents := v.declare(fr.prefix+in.Name()+"_c", fmt.Sprintf("(Array %s %s)", v.idx(), es))
 	doff := fmt.Sprintf("(sl_off %s)", d.T)
-	old := fmt.Sprintf("(select %s (sl_arr %s))", h, d.T)
+	old := v.rd(pre, arr, v.arrOf(d.T))
 	// outside [doff, doff+n): unchanged; inside: source elements
 	v.emit(fmt.Sprintf("(assert (forall ((j %s)) (! (=> (not (and (%s %s j) (%s j %s))) (= (select %s j) (select %s j))) :pattern ((select %s j)))))",
 		v.idx(), le, doff, lt, v.iadd(doff, n), contents, old, contents))
 	if s.Sort == "Slice" {
-		v.emit(fmt.Sprintf("(assert (forall ((i %s)) (! (=> (and (%s %s i) (%s i %s)) (= (select %s %s) (select (select %s (sl_arr %s)) %s))) :pattern ((select %s %s)))))",
-			v.idx(), le, v.idxLit(0), lt, n, contents, v.iadd(doff, "i"), h, s.T, v.iadd(fmt.Sprintf("(sl_off %s)", s.T), "i"), contents, v.iadd(doff, "i")))
+		v.emit(fmt.Sprintf("(assert (forall ((i %s)) (! (=> (and (%s %s i) (%s i %s)) (= (select %s %s) %s)) :pattern ((select %s %s)))))",
+			v.idx(), le, v.idxLit(0), lt, n, contents, v.iadd(doff, "i"), v.sliceElemAt(pre, arr, es, s.T, "i"), contents, v.iadd(doff, "i")))
 	}
-	v.heapSet(st.snap, arr, fmt.Sprintf("(store %s (sl_arr %s) %s)", h, d.T, contents))
+	v.wr(st.snap, arr, v.arrOf(d.T), contents)
 	fr.vals[in] = TV{T: n, Ty: in.Type(), Sort: v.idx()}
 }
 
@@ -1402,9 +1410,8 @@ func (v *FV) sharedAfterStep(fr *Frame, st *State, before *Snapshot, pos, what s
 func (v *FV) bumpCalls(st *State, f Term, args []TV) {
 	v.regArray("CALLS", fmt.Sprintf("(Array Int %s)", v.idx()))
 	v.regArray("ARGNN", "(Array Int Bool)")
-	h := v.heapGet(st.snap, "CALLS")
-	v.heapSet(st.snap, "CALLS", fmt.Sprintf("(store %s %s %s)", h, f, v.iadd(fmt.Sprintf("(select %s %s)", h, f), v.idxLit(1))))
+	v.wr(st.snap, "CALLS", f, v.iadd(v.rd(st.snap, "CALLS", f), v.idxLit(1)))
 	if len(args) > 0 && args[0].Sort == "Int" {
-		v.heapSet(st.snap, "ARGNN", fmt.Sprintf("(store %s %s (not (= %s 0)))", v.heapGet(st.snap, "ARGNN"), f, args[0].T))
+		v.wr(st.snap, "ARGNN", f, fmt.Sprintf("(not (= %s 0))", args[0].T))
 	}
 }
